@@ -4,11 +4,30 @@ package main
 import (
 	"bytes"
 	"fmt"
+	"os"
+	"strings"
 
 	pb "go.etcd.io/etcd/raft/v3/raftpb"
 )
 
+// skipInv: development aid. RAFTMC_SKIP_INV=Kind1,Kind2 switches the named invariants off, e.g.
+// to see which of the remaining ones a changed library violates further down the same runs
+// (a violating transition is never expanded, so an early structural invariant hides the
+// functional damage behind it). A run with it set reports exhaustive=false and lists the names.
+var skipInv = func() map[string]bool {
+	m := map[string]bool{}
+	for _, k := range strings.Split(os.Getenv("RAFTMC_SKIP_INV"), ",") {
+		if k = strings.TrimSpace(k); k != "" {
+			m[k] = true
+		}
+	}
+	return m
+}()
+
 func (c *cluster) fail(kind, format string, a ...interface{}) {
+	if len(skipInv) > 0 && skipInv[kind] {
+		return
+	}
 	c.viol = append(c.viol, violation{Kind: kind, Detail: fmt.Sprintf(format, a...)})
 }
 
@@ -197,6 +216,38 @@ func (c *cluster) check(n, before *node, eff *effects, e Event) {
 		}
 		if st.Applied > st.Commit {
 			c.fail("LogBounds", "node %d: applied %d beyond commit %d", n.id, st.Applied, st.Commit)
+		}
+	}
+	// --- AtMostOnePendingConfChange. The library's rule (raft.go, pendingConfIndex): "Only one
+	// conf change may be pending (in the log, but not yet applied) at a time"; Node.ProposeConfChange:
+	// "configuration changes are dropped unless the leader has certainty that there is no prior
+	// unapplied configuration change in its log". It is what makes single-step membership changes
+	// safe (two configurations one change apart always share a quorum; two changes apart they
+	// need not). Stated on the log as the leader's RawNode sees it (persisted + unstable): a
+	// leader of term t never has a conf-change entry of term t - one that it accepted itself, or
+	// the auto-leave it proposed itself - above its applied index with ANOTHER conf-change entry
+	// between the applied index and that entry. The one legitimate way to hold several unapplied
+	// conf changes is to inherit them: entries of earlier terms a new leader finds in its log
+	// (it sets pendingConfIndex to its last index and accepts nothing before all of them are
+	// applied), or a follower's log; those are not covered by the rule and not flagged (counted
+	// as coverage). A refused conf change is stored as an empty normal entry and does not count.
+	if n.isLeader() {
+		var first *pb.Entry
+		for i := n.status.Applied + 1; i <= n.memLastIndex(); i++ {
+			en, ok := n.memEntryAt(i)
+			if !ok || en.Type == pb.EntryNormal {
+				continue
+			}
+			if first == nil {
+				first = en
+				continue
+			}
+			c.flags |= fTwoConfUnapplied
+			if en.Term == n.status.Term {
+				c.fail("AtMostOnePendingConfChange", "leader %d (term %d, applied %d, commit %d) accepted the conf change %s into its log while the conf change %s is in its log and not yet applied (pendingConfIndex=%d); log=%s",
+					n.id, n.status.Term, n.status.Applied, n.status.Commit, descEntry(en), descEntry(first), n.pendingConf, descMemLog(n))
+				break
+			}
 		}
 	}
 	// --- conflict truncation (coverage) : an index kept, term changed / log shorter
@@ -388,7 +439,7 @@ func (c *cluster) logMatching(a, b *node) {
 // expander.complete), and only the resulting genuine violation is reported.
 // Only used for fixed memberships (majority of the initial members).
 func (c *cluster) electableWithoutCommitted() (uint64, uint64) {
-	if c.cfg.joiners() > 0 || c.bud.Lags > 0 || c.bud.Plags > 0 {
+	if c.cfg.joiners() > 0 || c.bud.Lags > 0 || c.bud.Plags > 0 || c.bud.ConfChanges > 0 || c.bud.Batches > 0 {
 		return 0, 0
 	}
 	type last struct{ term, idx uint64 }
